@@ -39,6 +39,9 @@ func init() {
 			{ID: "C18.R16", Floor: 1, Run: checkedCallsChecked, Text: "exported generic methods not named *Unchecked never call an *Unchecked method of package ecs"},
 			{ID: "C18.R17", Floor: 2, Run: exchangeSettersReplace, Text: "generic Exchange setters replace: Adds/Removes store a list that does not depend on the one stored before"},
 			{ID: "C18.R18", Floor: 15, Run: c10r1, Text: "validate before mutate (= C10.R1): a generic New(target) that panics has not created an entity"},
+			{ID: "C18.R19", Floor: 1, Run: exclusiveFromInclude, Text: "Exclusive excludes the complement of what is included: in Compile the mask that is complemented is the mask stored as the filter's inclusion (after optional components were removed)"},
+			{ID: "C18.R20", Floor: 20, Run: mapListsComplete, Text: "component lists of MapN are complete: every list of components or ids a MapN method builds in place and hands to the core has exactly N elements"},
+			{ID: "C18.R21", Floor: 4, Run: noTargetNoRelationFlag, Text: "without a target no relation is claimed (= C05.R17)"},
 		},
 	})
 }
